@@ -1211,4 +1211,173 @@ theorem rotation_points (cfg : Cfg) (h : List Op) (hp : proto .stopped h = true)
   rw [f, c] at hall
   exact AllP_Q hall n p hn
 
+/-! ## the records are numbered in the order they are written -/
+
+/-- the records written by a trace -/
+def recW : List Prim → List Rec
+  | [] => []
+  | .write ls :: r => recsOf ls ++ recW r
+  | _ :: r => recW r
+
+theorem recW_append (a b : List Prim) : recW (a ++ b) = recW a ++ recW b := by
+  induction a with
+  | nil => rfl
+  | cons p r ih => cases p <;> simp [recW, ih, List.append_assoc]
+
+theorem written_step (a : Acct) (p : Prim) : (a.step p).written = a.written ++ recW [p] := by
+  cases p with
+  | write ls => simp [Acct.step, Acct.written, recW, List.append_assoc]
+  | sync => simp [Acct.step, Acct.written, recW]
+  | closeF => simp [Acct.step, Acct.written, recW]
+  | rename k => cases k <;> simp [Acct.step, Acct.written, recW]
+  | create => simp [Acct.step, Acct.written, recW]
+  | openA => simp [Acct.step, Acct.written, recW]
+  | touch k => simp [Acct.step, Acct.written, recW]
+
+theorem written_stepAll (a : Acct) (ps : List Prim) : (a.stepAll ps).written = a.written ++ recW ps := by
+  induction ps generalizing a with
+  | nil => simp [Acct.stepAll, recW]
+  | cons p r ih =>
+    rw [stepAll_cons, ih, written_step]
+    have : recW (p :: r) = recW [p] ++ recW r := by
+      have := recW_append [p] r; simpa using this
+    rw [this, List.append_assoc]
+
+theorem written_acctOf (tr : List Prim) : (acctOf tr).written = recW tr := by
+  have := written_stepAll {} tr
+  simpa [acctOf, Acct.stepAll, Acct.written] using this
+
+/-- `s'` wrote no record beyond those of `s` -/
+def NoRec (s s' : St) : Prop := recW s'.trace = recW s.trace ∧ s'.seq = s.seq
+
+theorem NoRec.refl (s : St) : NoRec s s := ⟨rfl, rfl⟩
+theorem NoRec.trans {a b c : St} (h1 : NoRec a b) (h2 : NoRec b c) : NoRec a c :=
+  ⟨h2.1.trans h1.1, h2.2.trans h1.2⟩
+
+theorem emit_noRec (s : St) (ps : List Prim) (h : recW ps = []) : NoRec s (s.emit ps) := by
+  refine ⟨?_, rfl⟩
+  show recW (s.trace ++ ps) = _
+  rw [recW_append, h, List.append_nil]
+
+theorem flushLog_noRec (s : St) : NoRec s s.flushLog := by
+  unfold St.flushLog; split
+  · exact emit_noRec s _ rfl
+  · exact NoRec.refl s
+
+theorem closeLog_noRec (s : St) : NoRec s s.closeLog := by
+  unfold St.closeLog; split
+  · exact emit_noRec s _ rfl
+  · exact NoRec.refl s
+
+theorem recW_touches (ks : List Nat) : recW (ks.map fun k => Prim.touch (k + 1)) = [] := by
+  induction ks with
+  | nil => rfl
+  | cons k r ih => simpa [recW] using ih
+
+theorem reopen_noRec (s : St) (k : Nat) : NoRec s (s.reopen k) := by
+  unfold St.reopen
+  simp only []
+  have h1 := closeLog_noRec s
+  generalize s.closeLog = s1 at h1
+  have h2 : NoRec s1 (if (s1.fs.slots 0).isSome then { s1 with first := false } else s1) := by
+    split <;> exact ⟨rfl, rfl⟩
+  generalize (if (s1.fs.slots 0).isSome then ({ s1 with first := false } : St) else s1) = s2 at h2
+  have h3 := emit_noRec s2 [.openA] rfl
+  split
+  · have h4 := emit_noRec (s2.emit [.openA]) ((List.range k).map fun k => Prim.touch (k + 1)) (recW_touches _)
+    exact h1.trans (h2.trans (h3.trans ⟨h4.1, h4.2⟩))
+  · exact h1.trans (h2.trans h3)
+
+theorem renames_noRec (s : St) (k : Nat) : NoRec s (s.renames k).1 := by
+  induction k generalizing s with
+  | zero => exact NoRec.refl s
+  | succ k ih =>
+    unfold St.renames
+    split
+    · exact (emit_noRec s [.rename k] rfl).trans (ih _)
+    · exact emit_noRec s [.rename k] rfl
+
+theorem cycle_noRec (s : St) : NoRec s s.cycle := by
+  unfold St.cycle
+  split
+  · exact NoRec.refl s
+  · simp only []
+    have h1 := flushLog_noRec s
+    generalize s.flushLog = s1 at h1
+    split
+    · exact h1
+    · split
+      · exact h1
+      · have h2 := closeLog_noRec s1
+        generalize s1.closeLog = s2 at h2
+        have h3 := renames_noRec s2 s2.cfg.keep
+        rcases hr : s2.renames s2.cfg.keep with ⟨s3, ok⟩
+        rw [hr] at h3
+        simp only at h3
+        cases ok
+        · exact h1.trans (h2.trans (h3.trans (reopen_noRec s3 0)))
+        · have h4 := emit_noRec s3 [.create, .write [.header]] rfl
+          exact h1.trans (h2.trans (h3.trans (h4.trans (reopen_noRec _ 0))))
+
+/-- the records written so far are numbered `0, 1, …, seq-1` -/
+def Numbered (s : St) : Prop := (recW s.trace).map (·.n) = List.range s.seq
+
+theorem Numbered.noRec {s s' : St} (h : Numbered s) (hn : NoRec s s') : Numbered s' := by
+  unfold Numbered; rw [hn.1, hn.2]; exact h
+
+theorem logAll_numbered (s : St) (h : Numbered s) : Numbered s.logAll := by
+  have h1 : Numbered s.writeRec := by
+    unfold Numbered St.writeRec
+    show (recW (s.trace ++ [.write [.rec_ ⟨s.seq, s.recSize⟩]])).map (·.n) = List.range (s.seq + 1)
+    rw [recW_append, List.map_append, h, List.range_succ]
+    rfl
+  have h2 : Numbered s.writeRec.flushTimer := by
+    unfold St.flushTimer
+    split
+    · exact h1.noRec ⟨(flushLog_noRec _).1, (flushLog_noRec _).2⟩
+    · exact h1
+  unfold St.logAll St.cycleTimer
+  split
+  · split
+    · exact h2.noRec ⟨(cycle_noRec _).1, (cycle_noRec _).2⟩
+    · exact h2
+  · exact h2
+
+theorem step_numbered (s : St) (op : Op) (h : Numbered s) : Numbered (s.step op) := by
+  cases op with
+  | advance d => exact h
+  | size n => exact h
+  | ctl c =>
+    cases c with
+    | run => exact logAll_numbered s h
+    | start =>
+      simp only [St.step, St.send]
+      have h1 := h.noRec (reopen_noRec s s.cfg.keep)
+      generalize s.reopen s.cfg.keep = s1 at h1
+      have h2 : Numbered (if !s1.logged && s1.first then s1.emit [.write [.header]] else s1) := by
+        split
+        · exact h1.noRec (emit_noRec s1 _ rfl)
+        · exact h1
+      exact logAll_numbered _ h2
+    | stop =>
+      simp only [St.step, St.send]
+      split
+      · exact h
+      · have h1 := logAll_numbered s h
+        generalize s.logAll = s1 at h1
+        have h2 : Numbered (if s1.cfg.keep ≠ 0 ∧ s1.cfg.reuse = true then s1.cycle else s1) := by
+          split
+          · exact h1.noRec (cycle_noRec s1)
+          · exact h1
+        exact h2.noRec ⟨(closeLog_noRec _).1, (closeLog_noRec _).2⟩
+
+theorem exec_numbered (s : St) (h : List Op) (hn : Numbered s) : Numbered (s.exec h) := by
+  induction h generalizing s with
+  | nil => exact hn
+  | cons op rest ih => exact ih _ (step_numbered s op hn)
+
+theorem recW_take_prefix (tr : List Prim) (n : Nat) : ∃ rest, recW tr = recW (tr.take n) ++ rest := by
+  refine ⟨recW (tr.drop n), ?_⟩
+  rw [← recW_append, List.take_append_drop]
+
 end Ioflo.Rotate
